@@ -125,16 +125,25 @@ func RunCopies(args []string) int {
 	if !s.Welcome("me", 5*time.Second) {
 		return 2
 	}
+	// handlers per set differ per verb: one set with a single handler, sets with none, sets with several
+	counts := map[string][3]int{"ZCA": {1, 1, 1}, "ZCB": {*nh, *nh, *nh}, "PRIVMSG": {0, 1, 2}}
+	expectedOf := map[string]int{}
 	for _, v := range verbs {
-		for h := 0; h < *nh; h++ {
+		c := counts[v]
+		for h := 0; h < c[0]; h++ {
 			client.VerifHandleInternal(s.C, v, mk("int", h))
+		}
+		for h := 0; h < c[1]; h++ {
 			s.C.HandleFunc(v, mk("fg", h))
+		}
+		for h := 0; h < c[2]; h++ {
 			s.C.HandleBG(v, mk("bg", h))
 		}
+		expectedOf[v] = c[0] + c[1] + c[2]
 	}
-	expected := 3 * *nh
+	expected := 0
 	tagForms := []string{"", "", "@ ", "@; ", "@a=b ", "@a=b;c;d=e\\sf ", "@k ", "@;; "}
-	lines := 0
+	lines, invocations := 0, 0
 	for i := 0; i < *n; i++ {
 		na := rng.Intn(16)
 		if i%7 == 0 {
@@ -176,7 +185,9 @@ func RunCopies(args []string) int {
 			return 3
 		}
 		mu.Lock()
+		expected = expectedOf[verb]
 		r := rec{Raw: raw, Args: latin(ref.Args), HasTags: ref.Tags != nil, Tags: tagList(ref.Tags), Expected: expected, Invs: cur[raw]}
+		invocations += expected
 		delete(cur, raw)
 		delete(bgDone, raw)
 		mu.Unlock()
@@ -191,7 +202,7 @@ func RunCopies(args []string) int {
 		w.WriteByte('\n')
 		lines++
 	}
-	b, _ := json.Marshal(map[string]interface{}{"lines": lines, "invocations": lines * expected, "handlers_per_line": expected, "kept_alive": len(keep)})
+	b, _ := json.Marshal(map[string]interface{}{"lines": lines, "invocations": invocations, "handlers_per_line": expectedOf, "kept_alive": len(keep)})
 	fmt.Println("SUMMARY " + string(b))
 	return 0
 }
